@@ -34,6 +34,9 @@ AGREE_THEOREMS = {
 
 # source-agreement leaves (DESIGN 11.7): interpreting the dumped Python source = the model, for all inputs
 PYAGREE = {
+    'C01': ['LayerWhole', 'LayerSend'],
+    'C11': ['LayerWhole'],
+    'C18': ['LayerRx', 'LayerTxWhole'],
     'C02': ['MiscFd', 'MiscFrame', 'LayerSend'],
     'C03': ['Pdu', 'MiscFc', 'LayerRx'],
     'C04': ['LayerTxHelpers', 'LayerTx', 'LayerTxWhole'],
